@@ -135,7 +135,7 @@ Definition include_warnings_t (legacy : bool) (rs : list (ttok (str * option (to
   if legacy then []
   else flat_map (fun mc => match snd (fst mc) with Some (OkT _ w, _) => w | _ => [] end) (matches rs).
 
-Definition pass_filtered_t (legacy : bool) (c : ctx) (s : tstr) : (tstr + error) * list failure :=
+Definition pass_filtered_t {F : FTable} (legacy : bool) (c : ctx) (s : tstr) : (tstr + error) * list failure :=
   tsub PFiltered (fun (m : str * str) g0 =>
                     let '(x, f) := m in
                     match lookup c x with
@@ -149,7 +149,7 @@ Definition pass_filtered_t (legacy : bool) (c : ctx) (s : tstr) : (tstr + error)
                     | None => (inl g0, [])
                     end)
        (scan (m_filtered tcode) O s).
-Definition warn_filtered_t (c : ctx) (s : tstr) : list warning :=
+Definition warn_filtered_t {F : FTable} (c : ctx) (s : tstr) : list warning :=
   flat_map (fun mc => let '((x, f), _) := mc in
                       if bound c x && negb (is_filter f) then [WUnknownFilter f] else [])
            (matches (scan (m_filtered tcode) O s)).
@@ -158,7 +158,7 @@ Definition replace_default_t (s : tstr) (old : str) (new : tstr) : tstr * list f
   let ts := scan (m_lit tcode old) O s in
   (subst (fun _ _ => new) ts, toks_log PDefault ts).
 
-Definition pass_default_t (legacy : bool) (c : ctx) (s : tstr) : tstr * list failure :=
+Definition pass_default_t {F : FTable} (legacy : bool) (c : ctx) (s : tstr) : tstr * list failure :=
   let ts := scan (m_default tcode) O s in
   fold_left (fun (acc : tstr * list failure) (mc : (str * str) * tstr) =>
                let '(res, lg) := acc in
@@ -194,7 +194,7 @@ Definition warn_simple_t (c : ctx) (s : tstr) : list warning :=
 
 Definition text_of (r : tstr + error) : tstr := match r with inl t => t | inr _ => [] end.
 
-Fixpoint translate_t (legacy : bool) (fuel : nat) (strict : bool) (T : list (str * str)) (c : ctx) (s : str)
+Fixpoint translate_t {F : FTable} (legacy : bool) (fuel : nat) (strict : bool) (T : list (str * str)) (c : ctx) (s : str)
   : toutcome * list failure :=
   match fuel with
   | O => (ErrT EFuel, [])
@@ -235,10 +235,10 @@ Fixpoint translate_t (legacy : bool) (fuel : nat) (strict : bool) (T : list (str
       end
   end.
 
-Definition render_taint (strict : bool) (T : list (str * str)) (c : ctx) (s : str)
+Definition render_taint {F : FTable} (strict : bool) (T : list (str * str)) (c : ctx) (s : str)
   : toutcome * list failure :=
   translate_t false (S (length T)) strict T c s.
-Definition render_taint_legacy (strict : bool) (T : list (str * str)) (c : ctx) (s : str)
+Definition render_taint_legacy {F : FTable} (strict : bool) (T : list (str * str)) (c : ctx) (s : str)
   : toutcome * list failure :=
   translate_t true (S (length T)) strict T c s.
 
@@ -250,7 +250,6 @@ Definition err_row (e : option error) : list Z :=
   | Some (EMissing x) => 1 :: x
   | Some EType => [2]
   | Some EFuel => [3]
-  | Some EUnmodelled => [4]
   end.
 Definition warn_row (ws : list warning) : list Z :=
   flat_map (fun w => match w with
@@ -280,7 +279,7 @@ Definition item_raw_ok (it : item) : bool :=
   match it with
   | IStr s => nosent s
   | IDict kvs => forallb (fun kv => nosent (fst kv) && nosent (snd kv)) kvs
-  | IOpaque s r => nosent s && nosent r
+  | IOpaque s r j => nosent s && nosent r && nosent j
   | _ => true
   end.
 Definition value_raw_ok (v : value) : bool :=
@@ -294,7 +293,8 @@ Definition ctx_raw_ok (c : ctx) : bool := forallb (fun kv => value_raw_ok (snd k
 (* ------------------------------------------------------------------ *)
 (* histories on one Ribosome instance                                    *)
 (* What a Ribosome keeps between calls: the registry (name -> mRNA), the filter table (the
-   built-in one here), the strict/silent flags and two statistics counters
+   built-in filters overlaid with the custom table F given at construction; translate() only
+   reads it, so it is a parameter [F : FTable] of the whole model), the strict/silent flags and two statistics counters
    (_translations_count, _errors_count; read only by get_statistics()).  translate() reads
    the registry, the filters and strict, and nothing else: it reads neither counter, keeps no
    per-render state on the instance, and never looks at an mRNA's own .name (the registry is
@@ -324,7 +324,7 @@ Inductive result :=
 | RRender (t : template) (c : ctx) (o : outcome) (ot : toutcome * list failure).
 
 (* what an operation answers on registry T, and the registry afterwards: pure functions *)
-Definition result_on (strict : bool) (T : list (str * template)) (o : op) : result :=
+Definition result_on {F : FTable} (strict : bool) (T : list (str * template)) (o : op) : result :=
   let render t c :=
     RRender t c (render_impl strict (print_templates T) c (print t))
                 (render_taint strict (print_templates T) c (print t)) in
@@ -336,22 +336,23 @@ Definition result_on (strict : bool) (T : list (str * template)) (o : op) : resu
 Definition registry_after (T : list (str * template)) (o : op) : list (str * template) :=
   match o with OpRegister n t => reg_set T n t | _ => T end.
 
-Definition step (i : instance) (o : op) : instance * result :=
+Definition step {F : FTable} (i : instance) (o : op) : instance * result :=
   (mkInstance (registry_after (i_templates i) o) (i_strict i) (i_calls i + 1),
    result_on (i_strict i) (i_templates i) o).
 
-Fixpoint run_ops (i : instance) (os : list op) : list (list (str * template) * result) :=
+Fixpoint run_ops {F : FTable} (i : instance) (os : list op) : list (list (str * template) * result) :=
   match os with
   | [] => []
   | o :: rest => let '(i', r) := step i o in (i_templates i, r) :: run_ops i' rest
   end.
 
-(* case: initially registered templates, the operations on ONE instance in order, strict *)
-Definition case := (list (str * template) * list op * bool)%type.
+(* case: the custom filter table the instance is constructed with, the initially registered
+   templates, the operations on ONE instance in order, strict *)
+Definition case := (ftable * list (str * template) * list op * bool)%type.
 
 (* the reference rendering (both modes, delimiter-free or not) whenever the CURRENT registry and
    the template are of the grammar and the context is sentinel-free *)
-Definition spec_row (T : list (str * template)) (strict : bool) (main : template) (cx : ctx) : list Z :=
+Definition spec_row {F : FTable} (T : list (str * template)) (strict : bool) (main : template) (cx : ctx) : list Z :=
   if well_formed main && forallb (fun nt => well_formed (snd nt)) T && ctx_raw_ok cx then
     match render_spec strict T cx main with
     | SOk t _ => 1 :: t
@@ -364,7 +365,7 @@ Definition spec_row (T : list (str * template)) (strict : bool) (main : template
 (* rows per render: error; text; warnings; opacity failures (origin*16+pass, sorted);
                     reference rendering when applicable; plain model = erased taint model.
    a registration: one row [7]; translate of an unregistered name: [5; name] and five empty rows *)
-Definition result_rows (strict : bool) (Tr : list (str * template) * result) : list (list Z) :=
+Definition result_rows {F : FTable} (strict : bool) (Tr : list (str * template) * result) : list (list Z) :=
   let '(T, r) := Tr in
   match r with
   | RRegistered => [[7]]
@@ -375,5 +376,5 @@ Definition result_rows (strict : bool) (Tr : list (str * template) * result) : l
   end.
 
 Definition run_case (c : case) : list (list Z) :=
-  let '(T, os, strict) := c in
-  concat (map (result_rows strict) (run_ops (mkInstance T strict 0) os)).
+  let '(F, T, os, strict) := c in
+  concat (map (@result_rows F strict) (@run_ops F (mkInstance T strict 0) os)).
